@@ -73,6 +73,9 @@ func addProc(bm *bondmachine.Bondmachine, m *procbuilder.Machine) int {
 	return len(bm.Processors) - 1
 }
 
+// startVMRules: simulation box rules of the VMs that startVM launches (set by a check around its calls).
+var startVMRules []string
+
 // startVM creates, initialises and launches a real simulator VM for bm.
 func startVM(bm *bondmachine.Bondmachine, delays *simbox.SimDelays) (*bondmachine.VM, error) {
 	vm := new(bondmachine.VM)
@@ -82,6 +85,11 @@ func startVM(bm *bondmachine.Bondmachine, delays *simbox.SimDelays) (*bondmachin
 		return nil, err
 	}
 	sbox := new(simbox.Simbox)
+	for _, rule := range startVMRules {
+		if err := sbox.Add(rule); err != nil {
+			return nil, err
+		}
+	}
 	if err := vm.Launch_processors(sbox); err != nil {
 		return nil, err
 	}
